@@ -456,7 +456,7 @@ func (s *clientSocket) emitBuffered() {
 			s.sendAckPacket(ackID, values)
 		}
 
-		hasAckFunc := s.callEvent(event.handler, event.header, event.values, sendAck)
+		hasAckFunc := s.callEvent(event.handler, event.header, event.values, event.offset, sendAck)
 
 		if event.header.ID != nil {
 			mu.Lock()
@@ -537,6 +537,7 @@ type clientEvent struct {
 	handler *eventHandler
 	header  *parser.PacketHeader
 	values  []reflect.Value
+	offset  string
 }
 
 type ackSendFunc = func(id uint64, values []reflect.Value)
@@ -547,21 +548,49 @@ func (s *clientSocket) onEvent(
 	decode parser.Decode,
 	sendAck ackSendFunc,
 ) (hasAckFunc bool) {
-	values, err := decode(handler.inputArgs...)
+	// With connection state recovery, the server appends the offset (a string) as
+	// the last argument of events without an ack ID. Decode it as an argument of its own.
+	// Otherwise the last argument of the handler is mistaken for it (or the other way around).
+	var (
+		inputArgs   = handler.inputArgs
+		offsetIndex = -1
+		offset      string
+	)
+	if _, ok := s.pid(); ok && header.ID == nil {
+		offsetIndex = len(handler.inputArgs)
+		if ack, _ := handler.ack(); ack {
+			// The event doesn't have an ack ID, so the offset is at the position of the ack function.
+			offsetIndex--
+		}
+		inputArgs = make([]reflect.Type, 0, offsetIndex+1)
+		inputArgs = append(inputArgs, handler.inputArgs[:offsetIndex]...)
+		inputArgs = append(inputArgs, reflect.TypeOf(offset))
+	}
+
+	values, err := decode(inputArgs...)
 	if err != nil {
 		s.onError(wrapInternalError(err))
 		return
 	}
 
-	if len(values) == len(handler.inputArgs) {
+	if len(values) == len(inputArgs) {
 		for i, v := range values {
-			if handler.inputArgs[i].Kind() != reflect.Ptr && v.Kind() == reflect.Ptr {
+			if inputArgs[i].Kind() != reflect.Ptr && v.Kind() == reflect.Ptr {
 				values[i] = v.Elem()
 			}
 		}
 	} else {
 		s.onError(fmt.Errorf("sio: onEvent: invalid number of arguments"))
 		return
+	}
+
+	if offsetIndex != -1 {
+		offset = values[offsetIndex].String()
+		values = values[:offsetIndex]
+		// Zero value for the ack function (if any). It is not used, since the event doesn't have an ack ID.
+		for i := offsetIndex; i < len(handler.inputArgs); i++ {
+			values = append(values, reflect.New(handler.inputArgs[i]).Elem())
+		}
 	}
 
 	// The check and the append are done under receiveBufferMu. Otherwise onConnect can
@@ -575,27 +604,27 @@ func (s *clientSocket) onEvent(
 			handler: handler,
 			header:  header,
 			values:  values,
+			offset:  offset,
 		})
 		s.receiveBufferMu.Unlock()
 		return
 	}
 	s.receiveBufferMu.Unlock()
-	return s.callEvent(handler, header, values, sendAck)
+	return s.callEvent(handler, header, values, offset, sendAck)
 }
 
 func (s *clientSocket) callEvent(
 	handler *eventHandler,
 	header *parser.PacketHeader,
 	values []reflect.Value,
+	offset string,
 	sendAck ackSendFunc,
 ) (hasAckFunc bool) {
 	// Set the lastOffset before calling the handler.
 	// An error can occur when the handler gets called,
 	// and we can miss setting the lastOffset.
-	_, ok := s.pid()
-	if ok && len(values) > 0 && values[len(values)-1].Kind() == reflect.String {
-		s.setLastOffset(values[len(values)-1].String())
-		values = values[:len(values)-1] // Remove offset
+	if offset != "" {
+		s.setLastOffset(offset)
 	}
 
 	ack, _ := handler.ack()
